@@ -260,7 +260,7 @@ Definition to_polygon (r : roi) : roi :=
   end.
 
 (* ---------- boundary band: exact rational (squared) distances, conservative ---------- *)
-Inductive verdict := Out | In | Near.
+Inductive verdict := VOut | VIn | VNear.
 
 (* signed sup-norm distance to the rectangle's boundary in the rectangle's own frame (negative inside) *)
 Definition rect_margin (x0 x1 y0 y1 c s : Q) (p : pt) : Q :=
@@ -303,7 +303,7 @@ Definition near (eps : Q) (r : roi) (p : pt) : bool :=
 
 Definition classify (eps : Q) (r : roi) : pt -> verdict :=
   let ct := contains r in
-  fun p => if near eps r p then Near else if ct p then In else Out.
+  fun p => if near eps r p then VNear else if ct p then VIn else VOut.
 
 (* ---------- Projected3dROI.contains3d: homogeneous projection, then the 2-d region ---------- *)
 Definition dot4 (row : list Q) (x y z : Q) : Q :=
@@ -322,7 +322,7 @@ Definition classify3d (eps : Q) (m : list (list Q)) (r : roi) : Q * Q * Q -> ver
   let cl := classify eps r in
   fun p3 =>
   match project m (fst (fst p3)) (snd (fst p3)) (snd p3) with
-  | None => Near
+  | None => VNear
   | Some p => cl p
   end.
 
@@ -373,7 +373,7 @@ Definition dec_op (t : tree) : op :=
   | _ => OToPolygon
   end.
 Definition enc_verdict (v : verdict) : tree :=
-  leaf (match v with Out => 0 | In => 1 | Near => 2 end)%Z.
+  leaf (match v with VOut => 0 | VIn => 1 | VNear => 2 end)%Z.
 Definition undefined_roi (r : roi) : bool :=
   match r with Poly [] => true | _ => false end.
 Definition dec_p3 (t : tree) : Q * Q * Q :=
